@@ -39,6 +39,19 @@ var attrFns = map[string]func(sAttr) value.Value{
 var attrVals = sAttr{a: 2, b: 2, c: 1, e: 1}
 var attrModel = model{"a": iv(2), "b": iv(2), "c": iv(1), "": iv(1)}
 
+// structSourceOverridden: the first attribute is registered twice (a getter that is overridden afterwards):
+// the abstract map is the same as without the first registration.
+func structSourceOverridden(name string, keys ...string) *srcDef {
+	tm := value.NewToMap[sAttr]()
+	mod := model{}
+	tm.Attr(keys[0], func(sAttr) value.Value { return value.Int(77) })
+	for _, k := range keys {
+		tm.Attr(k, attrFns[k])
+		mod[k] = attrModel[k]
+	}
+	return &srcDef{name: name, mod: mod, make: func(e *env) (value.Value, error) { return tm.Create(attrVals) }}
+}
+
 func structSource(name string, keys ...string) *srcDef {
 	tm := value.NewToMap[sAttr]()
 	mod := model{}
@@ -170,6 +183,8 @@ func init() {
 		}
 		reg(false, structSource(fmt.Sprintf("Struct%v", strings.ReplaceAll(fmt.Sprintf("%q", ks), " ", ",")), ks...))
 	}
+	reg(false, structSourceOverridden("Struct[a,b]/a-registered-twice", "a", "b"))
+	reg(false, structSourceOverridden("Struct[c]/c-registered-twice", "c"))
 	reg(false, reflSource("Refl{A,B int}", refl1{1, 2}, model{"A": iv(1), "B": iv(2)}))
 	reg(false, reflSource("Refl{int8,int16,int32,float32,float64,string,bool}", refl2{1, 2, 1, 1.5, 2.5, "x", true},
 		model{"I8": iv(1), "I16": iv(2), "I32": iv(1), "F32": fm(1.5), "F64": fm(2.5), "S": sm("x"), "B": mv{K: 'b', I: 1}}))
